@@ -34,6 +34,13 @@ func c08Cases(tier string, seed uint64, flavor string) []lib.Case {
 		s := c08Spec{Seed: lib.Mix(seed, 8, uint64(i)), Deriv: c08Derivs[i%len(c08Derivs)], K: 1 + i%4, Big: i%25 == 24, StoredSig: (i/len(c08Derivs))%2 == 1}
 		cases = append(cases, lib.Case{Seed: s.Seed, Kind: s.Deriv, Spec: lib.MustSpec(s)})
 	}
+	nbig := 6
+	if tier == "thorough" {
+		nbig = 200
+	}
+	for i := 0; i < nbig; i++ {
+		cases = append(cases, lib.Case{Kind: "edit-big-insertion", Spec: lib.MustSpec(c08Spec{Seed: lib.Mix(seed, 89, uint64(i)), Deriv: "edit-big-insertion", K: 1})})
+	}
 	if tier == "thorough" {
 		cases = append(cases, lib.Case{Kind: "edits-40M", Spec: lib.MustSpec(c08Spec{Seed: lib.Mix(seed, 88), Deriv: "edits-40M", K: 3})})
 	}
@@ -72,6 +79,10 @@ func c08Run(c lib.Case, env *lib.Env) lib.Result {
 			sz = int64(r.Range(70, 140))*lib.BS + int64(r.Intn(lib.BS))
 			nfiles = 1
 		}
+		if s.Deriv == "edit-big-insertion" {
+			sz = int64(r.Range(40, 100))*lib.BS + int64(r.Intn(lib.BS))
+			nfiles = 1
+		}
 		d := lib.RandomBytes(sz, r.Uint64()) // the edit bound is stated for high-entropy content only
 		if !strings.HasPrefix(s.Deriv, "edits") && s.Deriv != "mixed" {
 			// the "already present => nothing fresh" clauses hold for ANY content: zero files, zero blocks inside
@@ -100,12 +111,23 @@ func c08Run(c lib.Case, env *lib.Env) lib.Result {
 				}
 			case 3:
 				d = lib.MakeContent(lib.CPeriod, sz, r.Uint64(), r)
+			case 4:
+				// two different blocks of this file share their weak hash (a +1/-2/+1 revision of a block)
+				if sz >= 3*lib.BS {
+					copy(d[2*lib.BS:3*lib.BS], d[:lib.BS])
+					for o := int64(2*lib.BS + 100); o+3 < 3*lib.BS; o++ {
+						if d[o] < 255 && d[o+1] >= 2 && d[o+2] < 255 {
+							d[o], d[o+1], d[o+2] = d[o]+1, d[o+1]-2, d[o+2]+1
+							break
+						}
+					}
+				}
 			}
 		}
 		path := fmt.Sprintf("%sf%d.bin", []string{"", "d/", "d/e/"}[r.Intn(3)], i)
 		old.PutFile(path, d)
 		olds = append(olds, of{path, d})
-		if s.Deriv == "edits-40M" || s.Deriv == "edits-at-wrap" {
+		if s.Deriv == "edits-40M" || s.Deriv == "edits-at-wrap" || s.Deriv == "edit-big-insertion" {
 			break
 		}
 	}
@@ -159,6 +181,14 @@ func c08Run(c lib.Case, env *lib.Env) lib.Result {
 		for _, f := range olds {
 			edit(f, s.K)
 		}
+	case "edit-big-insertion":
+		// ONE edit that brings in more fresh bytes than a data operation may carry (4 MiB), followed by old data
+		f := olds[0]
+		insLen := int64(4*lib.MB) + int64(r.PickInt([]int{1, lib.BS, 300000, 4*lib.MB + 200000}))
+		at := int64(r.PickInt([]int{0, 100, lib.BS, 70000, len(f.data) / 2}))
+		nd := append(append(append([]byte(nil), f.data[:at]...), lib.RandomBytes(insLen, r.Uint64())...), f.data[at:]...)
+		nw.PutFile(f.path, nd)
+		edits = append(edits, c08Edit{f.path, f.path, insLen, 1})
 	case "edits-at-wrap":
 		// one small edit placed where the differ's 66-block working buffer wraps (blocks 64, 65, 131): the differ is
 		// rolling byte by byte right there
@@ -350,7 +380,7 @@ func init() {
 	lib.Register(&lib.Property{
 		ID:          "C08",
 		Level:       "exploration",
-		Rule:        "builds of 1..6 high-entropy files (100 bytes .. 5 MiB+3, one 40 MiB file in thorough) and derivations: identical build, rename all, duplicate x3 (with/without original), contents rotated between existing paths, an existing path overwritten by a copy of another old file, k in 1..4 localized edits (overwrite / insertion / deletion of {1,10,1000,B-1,B,B+1,100000,300000} bytes at offsets inside the first block, at block boundaries, inside the last two blocks, anywhere), mixed. A third of the diffs read the new build through a pool that returns irregular short reads (also with the last bytes together with EOF). Oracle: per-file DATA / BLOCK_RANGE accounting from the independently decoded patch, cross-checked with DiffContext.FreshBytes/ReusedBytes; files equal to an old file carry 0 DATA bytes; fresh <= introduced + (2k+2)*64KiB per edited file. distinct = distinct (derivation, k, file count, big)",
+		Rule:        "builds of 1..6 high-entropy files (100 bytes .. 5 MiB+3, one 40 MiB file in thorough) and derivations: identical build, rename all, duplicate x3 (with/without original), contents rotated between existing paths, an existing path overwritten by a copy of another old file, one insertion of 4 MiB + {1, B, 300000, 4.2 MiB} bytes (more than a data operation carries) followed by old data, k in 1..4 localized edits (overwrite / insertion / deletion of {1,10,1000,B-1,B,B+1,100000,300000} bytes at offsets inside the first block, at block boundaries, inside the last two blocks, anywhere), mixed. A third of the diffs read the new build through a pool that returns irregular short reads (also with the last bytes together with EOF). Oracle: per-file DATA / BLOCK_RANGE accounting from the independently decoded patch, cross-checked with DiffContext.FreshBytes/ReusedBytes; files equal to an old file carry 0 DATA bytes; fresh <= introduced + (2k+2)*64KiB per edited file. distinct = distinct (derivation, k, file count, big)",
 		Assumptions: []string{"the bound is evaluated on high-entropy content only (the statement's domain)", "introduced = bytes inserted or overwritten by the generator; deletions introduce 0"},
 		Cases:       c08Cases,
 		Run:         c08Run,
